@@ -65,6 +65,36 @@ theorem parse_emit_v2_ipv6 (pr : Proto) (s d : Bytes) (sp dp : Nat) (hs : s.leng
     simp [toBE, beNat] at e1 e2 <;> omega
 
 
+/-- **v2 LOCAL** (a balancer's health check): whatever family byte and address block it carries, the header is recognised,
+no addresses are taken from it, and its length is exactly the 16 fixed bytes plus the announced block — the receiver strips
+exactly that and the connection keeps its own addresses -/
+theorem parse_v2_local (fp : UInt8) (body rest : Bytes) (hb : body.length < 65536) :
+    parseV2 (sig ++ [0x20, fp] ++ toBE 2 body.length ++ body ++ rest) = some (.local_ (16 + body.length)) := by
+  have hsig : sig.length = 12 := sig_len
+  have hbe : (toBE 2 body.length).length = 2 := by simp [toBE]
+  have e : sig ++ [0x20, fp] ++ toBE 2 body.length ++ body ++ rest =
+      sig ++ (0x20 :: fp :: (toBE 2 body.length ++ (body ++ rest))) := by simp
+  rw [e]
+  unfold parseV2
+  have hlen : (sig ++ (0x20 :: fp :: (toBE 2 body.length ++ (body ++ rest)))).length = 16 + body.length + rest.length := by
+    simp [hsig, hbe]; omega
+  have htake : (sig ++ (0x20 :: fp :: (toBE 2 body.length ++ (body ++ rest)))).take 12 = sig := by
+    rw [List.take_append_of_le_length (by omega)]; exact List.take_of_length_le (by omega)
+  have g12 : (sig ++ (0x20 :: fp :: (toBE 2 body.length ++ (body ++ rest)))).getD 12 0 = 0x20 := by
+    simp only [List.getD_eq_getElem?_getD]; rw [List.getElem?_append_right (by omega), hsig]; rfl
+  have g14 : be16 ((sig ++ (0x20 :: fp :: (toBE 2 body.length ++ (body ++ rest)))).getD 14 0)
+      ((sig ++ (0x20 :: fp :: (toBE 2 body.length ++ (body ++ rest)))).getD 15 0) = body.length := by
+    simp only [List.getD_eq_getElem?_getD]
+    rw [List.getElem?_append_right (by omega), List.getElem?_append_right (by omega), hsig]
+    have := toBE2 body.length hb
+    simp [toBE, beNat, be16] at this ⊢
+    omega
+  rw [if_neg (by rw [hlen, htake]; simp; omega), g12, g14]
+  simp only []
+  rw [if_neg (by decide), if_neg (by rw [hlen]; omega)]
+  simp
+
+
 /-- the proxy_protocol matcher recognises what the proxy handler emits (sender and receiver agree on the signature) -/
 theorem encV2_sig (h : Hdr) : ∃ tail, encV2 h = sig ++ tail := by
   by_cases h4 : h.src.ip.length = 4 ∧ h.dst.ip.length = 4
